@@ -269,6 +269,11 @@ func run(propID, tier, root, verif, patchFile, onlyRule string, verbose, noSeeds
 		"wall_s":      time.Since(start).Seconds(),
 		"violations":  len(violations),
 	}
+	if info.Level == "translation_validation" {
+		cov := ev["coverage"].(map[string]any)
+		cov["programs"] = stats["SPEC-MATCH: spec/Go pairs"]
+		cov["disagreements_checked"] = len(all)
+	}
 	evPath := filepath.Join(verif, "evidence", propID+".json")
 	_ = os.MkdirAll(filepath.Dir(evPath), 0o755)
 	b, _ := json.MarshalIndent(ev, "", " ")
